@@ -172,6 +172,13 @@ class JacobianNumpy(Contract):
             npts, nf = rng.randint(1, 5), rng.randint(1, 5)
             e = nrng.uniform(-3, 3, npts)
             yield (e, nrng.uniform(-3, 3, npts), np.r_[e[:1], nrng.uniform(-3, 3, nf - 1)], nrng.uniform(-3, 3, nf), rng.choice([0.0, 0.5]), np.empty((npts, nf))), {}
+        # "the spline matrices depend only on coordinate differences": the same configurations far from the origin
+        # (offsets and separations exactly representable, so the differences - and hence the entries - are exact)
+        for off in (2.0**20, 2.0**23, -(2.0**22)):
+            npts, nf = rng.randint(2, 5), rng.randint(2, 5)
+            e, n_ = off + nrng.randint(-40, 40, npts) * 0.25, 3 * off + nrng.randint(-40, 40, npts) * 0.25
+            fe, fn = off + nrng.randint(-40, 40, nf) * 0.25, 3 * off + nrng.randint(-40, 40, nf) * 0.25
+            yield (e, n_, fe, fn, 0.0, np.empty((npts, nf))), {}
 
     tol = (1e-9, 1e-9)
 
@@ -291,6 +298,11 @@ class SplineJacobian(Contract):
             est = _real_spline(rng, nrng)
             q = _rand_coords(rng, nrng, rng.choice([1, 2]), 0, scale=3.0)
             fc = (np.r_[q[0].ravel()[:1], est.force_coords_[0]], np.r_[q[1].ravel()[:1], est.force_coords_[1]])  # one coincident point
+            yield (est, q, fc), {}
+        for off in (2.0**21, 2.0**23):  # far from the origin: entries depend on coordinate differences only
+            est = _real_spline(rng, nrng)
+            q = (off + nrng.randint(-40, 40, 5) * 0.25, -2 * off + nrng.randint(-40, 40, 5) * 0.25)
+            fc = (off + nrng.randint(-40, 40, 4) * 0.25, -2 * off + nrng.randint(-40, 40, 4) * 0.25)
             yield (est, q, fc), {}
 
     tol = (1e-9, 1e-9)
